@@ -436,6 +436,10 @@ def _dict_unflatten(data):
         if isinstance(value, np.ndarray) and value.dtype.type == np.str_:
             value = str(value)
 
+        # Convert 0-d arrays to (hashable) NumPy scalars, as in h5.
+        elif isinstance(value, np.ndarray) and value.ndim == 0:
+            value = value[()]
+
         # Store actual value of this key.
         tmp[parts[-1]] = value
 
